@@ -356,7 +356,7 @@ def showOutcome (o : Outcome) : String :=
     " closed=" ++ (if o.closed then "1" else "0")
 
 /-- handshake-level ordering ops: the proofs are honest or bad as flags
-      hs12s ver cv:<ok|bad|none> fin:<ok|bad> [checker:<ok|bad>]
+      hs12s ver cv:<ok|bad|none> fin:<ok|bad> [checker:<ok|second|bad>] [extra:<0|1>]
       hs12c ver ske:<ok|bad|none> fin:<ok|bad> [checker]
       hs13c cv:<ok|bad> fin:<ok|bad> [checker]
       hs13s mode:<cert|psk|pskbad> cv:<ok|bad|none> fin:<ok|bad> [checker]
@@ -369,17 +369,20 @@ def handleHs (op : String) (toks : List String) : Option String := do
   let srv : Cert := { key := 1, alg := .rsa, bits := 2048 }
   let cli : Cert := { key := 5, alg := .rsa, bits := 2048 }
   let finTok := (kv toks "fin").getD "ok"
-  let fp : Chain → Bytes := fun ch => ch.map fun c => UInt8.ofNat c.key
+  let fp : Cert → Bytes := fun c => [UInt8.ofNat c.key]
   let wrap (isClient : Bool) (o : Outcome) : Outcome :=
     match kv toks "checker" with
     | some "ok" => wrapper fp (some (if isClient then [1] else [5])) isClient o
-    | some "bad" => wrapper fp (some [9]) isClient o
+    | some "second" => wrapper fp (some [9]) isClient o      -- fingerprint of the extra certificate
+    | some "bad" => wrapper fp (some [77]) isClient o        -- fingerprint of no certificate in the chain
     | _ => o
+  -- `extra:1`: the peer's chain carries a second certificate (key 9) after its end-entity certificate
+  let extra : Chain := if (kv toks "extra").getD "0" == "1" then [{ key := 9, alg := .rsa, bits := 2048 }] else []
   match op with
   | "hs12s" =>
     let ver ← (← kv toks "ver").toNat?
     let cvTok ← kv toks "cv"
-    let chain : Chain := if cvTok == "none" then [] else [cli]
+    let chain : Chain := if cvTok == "none" then [] else [cli] ++ extra
     let lab : Option SchemeId := if ver = 3 then some (8, 4) else none
     let sig := if cvTok == "ok" then proverSign cli lab true thisT else [0]
     let master : Bytes := [9, 9]
@@ -395,12 +398,12 @@ def handleHs (op : String) (toks : List String) : Option String := do
       else some { hashAlg := ha, signAlg := sa, params := skeParams, signature := sig }
     let master : Bytes := [9, 9]
     let fin := if finTok == "ok" then finished12 C ver master lblServerFinished otherT else [0]
-    some (showOutcome (wrap true (hsClient12 C s ver .rsaLike [srv] ske crThis srThis master otherT fin [])))
+    some (showOutcome (wrap true (hsClient12 C s ver .rsaLike ([srv] ++ extra) ske crThis srThis master otherT fin [])))
   | "hs13c" =>
     let cvTok ← kv toks "cv"
     let sig := if cvTok == "ok" then proverSign srv (some (8, 4)) false (tbs13 tagServer (toyHash .sha256 thisT)) else [0]
     let fin := if finTok == "ok" then finished13 C .sha256 [4, 4] otherT else [0]
-    some (showOutcome (wrap true (hsClient13 C s [(8, 4)] [srv] certBytesThis [] thisT .sha256
+    some (showOutcome (wrap true (hsClient13 C s [(8, 4)] ([srv] ++ extra) certBytesThis [] thisT .sha256
       { scheme := some (8, 4), signature := sig } [4, 4] otherT fin)))
   | "hs13s" =>
     let mode ← kv toks "mode"
@@ -411,7 +414,7 @@ def handleHs (op : String) (toks : List String) : Option String := do
       if mode == "psk" then [([0x69], calcBinder C .sha256 [0x6b] trunc true)]
       else if mode == "pskbad" then [([0x69], [0])]
       else []
-    let chain : Chain := if cvTok == "none" then [] else [cli]
+    let chain : Chain := if cvTok == "none" then [] else [cli] ++ extra
     let sig := if cvTok == "ok" then proverSign cli (some (8, 4)) false (tbs13 tagClient (toyHash .sha256 thisT)) else [0]
     let fin := if finTok == "ok" then finished13 C .sha256 [4, 4] otherT else [0]
     some (showOutcome (wrap false (hsServer13 C s [srv] [cfg] .sha256 trunc true offered true [(8, 4)] chain thisT (some (8, 4))
